@@ -231,8 +231,28 @@ Definition check_parked (variant : Z) (obs : list sx) : verdict :=
   | _ => VBad
   end.
 
+(* shutdown, the worker's fourth input: ((impl variant 0 ()) (panics stuck sizeBad cancelBad
+   returned)), impl 6 = wheel, 7 = heap.  Shutdown() is called on the REAL worker — quiet
+   (variant 0), while client goroutines keep calling the API (1), while the worker is parked
+   on its output and callers sit in the send on the full start-request (2) / cancel-request
+   (3) channel; then every id is queried and cancelled and further timers are started.
+   No call may panic (panics), Shutdown and every caller must come back (returned, stuck),
+   Size() must agree with IsScheduled() (sizeBad) and Cancel() must return true exactly for
+   the ids IsScheduled() reported, which are not reported afterwards (cancelBad). *)
+Definition check_shutdown (obs : list sx) : verdict :=
+  match obs with
+  | [SInt panics; SInt stuck; SInt sizebad; SInt cancelbad; SInt ret] =>
+      vjoin (check_that (panics =? 0) (VPropFail 6))
+     (vjoin (check_that ((stuck =? 0) && (ret =? 1)) (VPropFail 7))
+     (vjoin (check_that (sizebad =? 0) (VPropFail 4))
+            (check_that (cancelbad =? 0) (VPropFail 5))))
+  | _ => VBad
+  end.
+
 Definition check_case (c : sx) : verdict :=
   match c with
+  | SList [SList [SInt 6; SInt _; SInt _; SList []]; SList obs] => check_shutdown obs
+  | SList [SList [SInt 7; SInt _; SInt _; SList []]; SList obs] => check_shutdown obs
   | SList [SList [SInt 4; SInt variant; SInt _; SList []]; SList obs] => check_parked variant obs
   | SList [SList [SInt 5; SInt variant; SInt _; SList []]; SList obs] => check_parked variant obs
   | SList [SList [SInt 2; SInt n; SInt _; SList []]; SList obs] => check_live n obs
